@@ -140,7 +140,13 @@ def run_query(builder, q, vars_, tier, workroot):
         selfstubs = {target} if q.selfstub else set()
         canaries = {target}
         slices = tuple((subst(fn, vars_).replace('TARGET', target), k, int(subst(i, vars_)), n) for (fn, k, i, n) in q.switch_slice)
-        text, u2 = builder.unit_text(selfstubs, canaries, {target}, slices)
+        roots = {target}
+        for pat in q.also:
+            m = builder.glob_fns(subst(pat, vars_))
+            if not m:
+                res.reason = 'also pattern %r matches nothing' % pat; return res
+            roots |= set(m)
+        text, u2 = builder.unit_text(selfstubs, canaries, roots, slices)
         tnode = u2.fn_by_cname[target]
         # harness
         params = []
@@ -152,6 +158,7 @@ def run_query(builder, q, vars_, tier, workroot):
             pn = p.get('name') or '__unnamed%d' % len(params)
             decls.append(u2.decl_text(p['type'], pn) + ';'); params.append(pn)
         call = '%s(%s);' % (target, q.args if q.args else ', '.join(params))
+        if q.plain: call = ''; decls = []
         harness = 'int __exc;\nvoid harness(void)\n{\n  %s\n%s\n%s\n  %s\n}\n' % ('\n  '.join(decls), uspec.ghost_init, subst(q.harness, vars_), call)
         ctext = text.replace('#include <stdlib.h>\n', '#include <stdlib.h>\n' + uspec.prelude + '\n', 1) + harness
         qdir = os.path.join(workroot, re.sub(r"[^\w.\-\[\]]", '_', name))
@@ -215,9 +222,11 @@ def run_query(builder, q, vars_, tier, workroot):
                 res.reason = 'pre-unwind failed: ' + (so + se)[-1500:]; return res
             gb1 = gb1u
         gi = ['goto-instrument', '--dfcc', 'harness']
-        if not q.no_enforce: gi += ['--enforce-contract', target]
+        if q.plain:
+            gi = ['cp']; replace = set()
+        if not q.no_enforce and not q.plain: gi += ['--enforce-contract', target]
         for r in sorted(replace): gi += ['--replace-call-with-contract', r]
-        gi += ([] if q.no_loop_contracts else ['--apply-loop-contracts']) + [gb1, gb2]
+        gi += ([] if (q.no_loop_contracts or q.plain) else ['--apply-loop-contracts']) + [gb1, gb2]
         rc, so, se, dt = run(gi, 300)
         open(os.path.join(qdir, 'instrument.log'), 'w').write(' '.join(gi) + '\n' + so + se)
         if rc != 0:
@@ -290,9 +299,9 @@ def run_query(builder, q, vars_, tier, workroot):
         # vacuity guards
         if not res.obligations:
             res.reason = 'no obligations generated'; return res
-        tcan = {k: v for k, v in res.canaries.items() if k.startswith('canary.%s.' % target)}
+        tcan = {k: v for k, v in res.canaries.items() if k.startswith('canary.%s.' % ('harness' if q.plain else target))}
         res.target_canaries = tcan
-        if not q.no_enforce and not q.expect_unreachable:
+        if (q.plain or not q.no_enforce) and not q.expect_unreachable:
             if not tcan:
                 res.reason = 'VACUOUS: no reachability canary in target'; return res
             if not any(v == 'FAILURE' for v in tcan.values()):
